@@ -1,5 +1,6 @@
 import Pamqp.Spec.Defs
 import Pamqp.Generated.Catalogue
+import Pamqp.Proofs.ArgLoop
 /-!
 # C01 — every method frame survives encode-then-decode unchanged
 -/
@@ -23,8 +24,8 @@ theorem C01_roundtrip_generic (cat : Cat) (hwf : Spec.catWF cat = true)
     (vals : List PyVal) (ha : Spec.Accepted legacy spec vals)
     (ch : Nat) (hc : ch < 65536) (rest : Bytes) :
     ∃ bs, Frame.marshal legacy cat (.method spec vals) (.int ch) = .ok bs ∧
-      Frame.unmarshal cat (bs ++ rest) = .ok (bs.length, ch, .method spec (Spec.normArgs spec vals)) := by
-  sorry
+      Frame.unmarshal cat (bs ++ rest) = .ok (bs.length, ch, .method spec (Spec.normArgs spec vals)) :=
+  Proofs.C01_generic cat hwf spec hs legacy vals ha ch hc rest
 
 /-- the property, for the catalogue regenerated from the current source -/
 theorem C01_method_roundtrip (spec : MethodSpec) (hs : spec ∈ Generated.cat.methods) (legacy : Bool)
